@@ -67,19 +67,19 @@ var documentedStatuses = map[int]bool{200: true, 400: true, 403: true, 404: true
 // ---------------------------------------------------------------- C10
 
 type c10Req struct {
-	Op      Op
-	At      time.Duration
-	Kind    string // update | malformed:<kind>
-	Body    []byte
-	Req     *Request
-	Want    string
-	St      Stored
-	Status  int
-	CType   string
-	RBody   []byte
-	Calls   int
-	After   Stored
-	T       time.Time
+	Op     Op
+	At     time.Duration
+	Kind   string // update | malformed:<kind>
+	Body   []byte
+	Req    *Request
+	Want   string
+	St     Stored
+	Status int
+	CType  string
+	RBody  []byte
+	Calls  int
+	After  Stored
+	T      time.Time
 }
 
 func c10Malform(kind string, body []byte, r *Rng) []byte {
@@ -431,8 +431,8 @@ func init() {
 		},
 		Components: map[string]string{
 			"internal/feeder/bastion addHandler (ServeHTTP, handleUpdate, parseBody, rate limiter)": "real, constructed by an add-only //go:build verif file injected with -overlay",
-			"http.MaxBytesHandler(16 KiB)":                          "real, wrapped by the harness as connectAndServe wraps it",
-			"omniwitness.witnessAdapter, internal/witness, both stores": "real",
+			"http.MaxBytesHandler(16 KiB)":                                                "real, wrapped by the harness as connectAndServe wraps it",
+			"omniwitness.witnessAdapter, internal/witness, both stores":                   "real",
 			"bastion connection (TLS 1.3 dial, HTTP/2 reverse serving, reconnect ticker)": "NOT run here (needs a real socket; see DESIGN.md 3.9)",
 			"clock, x/time/rate": "synctest fake clock",
 		},
@@ -444,12 +444,12 @@ func init() {
 
 // faultyReader delivers data in seeded chunks and can end early or fail mid-stream.
 type faultyReader struct {
-	data   []byte
-	chunks *Rng
+	data     []byte
+	chunks   *Rng
 	maxChunk int
-	endAt  int   // deliver only data[:endAt] then EOF (-1 = all)
-	errAt  int   // fail with an error once this many bytes were delivered (-1 = never)
-	pos    int
+	endAt    int // deliver only data[:endAt] then EOF (-1 = all)
+	errAt    int // fail with an error once this many bytes were delivered (-1 = never)
+	pos      int
 }
 
 var errStream = errors.New("injected stream error")
@@ -664,16 +664,16 @@ func init() {
 				sizeLineEnd := bytes.IndexByte(body, '\n')
 				restAfterSize := body[sizeLineEnd:]
 				malformed := map[string][]byte{
-					"no_old_keyword":   append([]byte(fmt.Sprintf("%d", m.Old)), restAfterSize...),
-					"other_keyword":    append([]byte(fmt.Sprintf("new %d", m.Old)), restAfterSize...),
-					"no_digits":        append([]byte("old "), restAfterSize...),
-					"letters_only":     append([]byte("old abc"), restAfterSize...),
+					"no_old_keyword":    append([]byte(fmt.Sprintf("%d", m.Old)), restAfterSize...),
+					"other_keyword":     append([]byte(fmt.Sprintf("new %d", m.Old)), restAfterSize...),
+					"no_digits":         append([]byte("old "), restAfterSize...),
+					"letters_only":      append([]byte("old abc"), restAfterSize...),
 					"junk_after_digits": append([]byte(fmt.Sprintf("old %dxyz", m.Old%1000)), restAfterSize...),
-					"negative":         append([]byte("old -1"), restAfterSize...),
-					"overflow":         append([]byte("old 18446744073709551616"), restAfterSize...),
-					"empty_size_line":  append([]byte(""), restAfterSize...),
-					"bad_base64":       append(append(append([]byte{}, body[:sizeLineEnd+1]...), []byte("@@@@\n")...), body[sizeLineEnd+1:]...),
-					"bad_base64_pad":   append(append(append([]byte{}, body[:sizeLineEnd+1]...), []byte("QUJD=\n")...), body[sizeLineEnd+1:]...),
+					"negative":          append([]byte("old -1"), restAfterSize...),
+					"overflow":          append([]byte("old 18446744073709551616"), restAfterSize...),
+					"empty_size_line":   append([]byte(""), restAfterSize...),
+					"bad_base64":        append(append(append([]byte{}, body[:sizeLineEnd+1]...), []byte("@@@@\n")...), body[sizeLineEnd+1:]...),
+					"bad_base64_pad":    append(append(append([]byte{}, body[:sizeLineEnd+1]...), []byte("QUJD=\n")...), body[sizeLineEnd+1:]...),
 				}
 				for _, name := range []string{"no_old_keyword", "other_keyword", "no_digits", "letters_only", "junk_after_digits", "negative", "overflow", "empty_size_line", "bad_base64", "bad_base64_pad"} {
 					if !want(name, 0) {
@@ -700,8 +700,8 @@ func init() {
 		},
 		Components: map[string]string{
 			"internal/feeder/bastion addHandler.ServeHTTP + parseBody": "real (via the -overlay constructor), behind http.MaxBytesHandler(16 KiB)",
-			"internal/witness Proof.Marshal/Unmarshal":                  "real",
-			"witness": "recording stub (the property is about what reaches it)",
+			"internal/witness Proof.Marshal/Unmarshal":                 "real",
+			"witness":        "recording stub (the property is about what reaches it)",
 			"request stream": "harness reader: seeded chunking, end-of-stream and read error at every offset",
 			"cmd/feedbastion's writer of the body format": "not run (package main); the harness writes the format from the c2sp spec",
 		},
